@@ -577,8 +577,11 @@ def sphdist(ra1, dec1, ra2, dec2, units=["deg", "deg"]):
     w = dsq >= 3.99
     if np.any(w):
         # one row per selected point
+        # (stack along a new last axis: .T would also transpose the leading
+        # axes of multi-dimensional input)
         cross = np.cross(
-            np.array([x1, y1, z1]).T[w], np.array([x2, y2, z2]).T[w],
+            np.stack([x1, y1, z1], axis=-1)[w],
+            np.stack([x2, y2, z2], axis=-1)[w],
         )
         crosssq = cross[:, 0]**2 + cross[:, 1]**2 + cross[:, 2]**2
         dis[w] = np.pi - np.arcsin(np.sqrt(crosssq))
